@@ -1327,6 +1327,8 @@ class Date(Atomic):
     _app_tag = Tag.dateAppTag
 
     def __init__(self, arg=None, year=255, month=255, day=255, day_of_week=255):
+        if year > 2154:
+            raise ValueError("invalid year")
         year = year - 1900 if year >= 1900 else year
         self.value = (year, month, day, day_of_week)
 
